@@ -488,8 +488,8 @@ def judge(impl, ops):
             v = ref.check_snapshot(*impl.snapshot())
             if v:
                 verdict, vkey = f"after op {idx} {op_token(op)}: {v}", "snapshot:" + v.split(" ")[0]
-        if not verdict and impl.loop.errors:
-            pass    # task errors (e.g. an overflowing sleep) are outside the property
+        # errors inside timer tasks (e.g. an overflowing sleep for lt=10**400) are counted by the
+        # caller (`task_errors`) but are outside the property
     return tokens, impl.dump(), verdict, vkey, stats
 
 
